@@ -18,6 +18,22 @@ CLAIMED = {
     note='Modelled not verified: Python list slicing and dict order. Values restricted to non-negative ints/bools.'),
 }
 
+CLAIMED['C04'] = dict(
+    text='Kernel-checked refinement: Props.C04.exec_refines (Impl.serverExecute = RegisterFile.step for every request, '
+         'layout and state) and run_refines (every history, by induction), frame-rule and read-your-writes corollaries on the '
+         'spec; the model is compared with decode -> handler.execute of the real code on random histories each run, and the real '
+         'responses/table contents with the Lean register-file spec.',
+    design='6/C04', technique='Lean 4 refinement proof (server execute = register file) + differential correspondence',
+    note='Modelled not verified: ModbusBaseRequestHandler.execute catch-all as serverExecute; framers are covered by C03/C06/C09. '
+         'Datastore cells restricted to non-negative ints/bools.')
+CLAIMED['C05'] = dict(
+    text='Kernel-checked: exception_no_change (an exception response implies the whole context is unchanged, any history), '
+         'the decision table bad_value_gives_03 / bad_range_gives_02 / broken_gives_04 / unknown_fc_gives_01 / valid_gives_normal on the '
+         'spec, tied to the implementation model by C04.exec_refines; boundary sweeps (quantities, addresses, byte counts, coil '
+         'words, unassigned function codes, raising datastores) run against the real code each run.',
+    design='6/C05', technique='Lean 4 invariant + decision-table proof + differential correspondence',
+    note='A failing datastore is modelled as a table that raises on every access (exception 04, nothing changes).')
+
 PENDING_REASON = 'check not built yet in this revision (work in progress; planned per DESIGN.md section 6)'
 
 def main():
